@@ -12,7 +12,8 @@ from ..paths import linear, norm_less, show
 from ..report import Report
 from ..table import fmt_val
 from .c06 import _is_method, window_shape
-from .common import HANDLE_FAILURE, SELF, attr, path_where
+from .windows import WindowSpec, loop_idioms, prunes, unverified_loops
+from .common import HANDLE_FAILURE, SELF, attr, path_where, owned_by
 from .failure_table import failure_table
 
 B = "redress.budget:Budget"
@@ -46,12 +47,22 @@ def run(rep: Report, prog: Program, tier: str) -> None:
     rest(rep, prog)
 
 
+SPEC = WindowSpec("Budget._prune", lambda e: EV, lambda e: e.args[0] if e.args else None, attr(SELF, "window_s"))
+
+
 def budget_shape(rep: Report, rid: str, prog: Program) -> None:
     fi = prog.func(f"{B}.consume")
     rep.analysed(fi.qual)
     paths = engine(prog).paths(fi)
+    top = engine(prog).cfgs.get(fi)
+    idioms = loop_idioms(paths, top, SPEC.window)
+    for bad in unverified_loops(idioms):
+        rep.instance(rid, f"consume|while-loop@{bad.head}")
+        rep.fail(rid, "consume|loop-shape", f"Budget.consume: a while loop is not the prune idiom: {bad.problem}", where=fi.where(top.nodes[bad.head].ast), function=fi.qual)
     n_full = n_grant = n_reject = 0
     for p in paths:
+        if p.exit[0] == "loop" and p.exit[1] in idioms:
+            continue  # one iteration of the inline prune loop: judged by loop_idioms
         construct = "|".join(p.describe()[-3:])
         rep.instance(rid, "consume|" + construct, {"path": p.describe()})
         imp = [e for e in p.events if e.kind == "call" and not e.pure]
@@ -65,17 +76,17 @@ def budget_shape(rep: Report, rid: str, prog: Program) -> None:
                 problem = f"rejection path: expected `cost < 1 -> ValueError` before any effect; found guards {[show(a) for a, _ in lits]}, effects {[e.label for e in imp]}, raises {p.exit[1]}"
         else:
             clocks = [e for e in imp if e.lib() == "time.monotonic"]
-            prunes = [e for e in imp if e.is_repo("Budget._prune")]
+            prs = prunes(p, SPEC, idioms, top)
             apps = [e for e in imp if _is_method(e, "append")]
-            other = [e for e in imp if e not in clocks + prunes + apps]
-            if len(clocks) != 1 or len(prunes) != 1 or other:
-                problem = f"expected one time.monotonic(), one _prune; found clocks={len(clocks)} prunes={len(prunes)} other={[e.label for e in other]}"
+            other = [e for e in imp if e not in clocks + [x.event for x in prs] + apps]
+            if len(clocks) != 1 or len(prs) != 1 or other:
+                problem = f"expected one time.monotonic(), one prune of the window; found clocks={len(clocks)} prunes={len(prs)} other={[e.label for e in other]}"
             else:
                 now = clocks[0].result
-                if prunes[0].args != [now]:
+                if prs[0].now != now or prs[0].container != EV:
                     problem = "prune is not given the clock reading of this call"
                 withs = [e for e in p.events if e.kind == "with_enter"]
-                if len(withs) != 1 or p.index_of(prunes[0]) < p.index_of(withs[0]):
+                if len(withs) != 1 or prs[0].index < p.index_of(withs[0]):
                     problem = problem or "prune/test/append are not inside one `with self._lock` block"
                 # capacity literal
                 cap = None
@@ -100,7 +111,7 @@ def budget_shape(rep: Report, rid: str, prog: Program) -> None:
                     n_full += 1
                     if apps or p.exit != ("return", ("const", False)):
                         problem = problem or f"full window must return False without recording; found appends={len(apps)}, result {show(p.exit[1])}"
-                    if p.index_of(prunes[0]) > max((i for i, it in enumerate(p.items) if it[0] == "cond"), default=0):
+                    if prs[0].index > max((i for i, it in enumerate(p.items) if it[0] == "cond" and it[3].info.get("loop_test_of") is None), default=0):
                         problem = problem or "capacity is tested before pruning"
                 else:
                     n_grant += 1
@@ -126,12 +137,23 @@ def budget_shape(rep: Report, rid: str, prog: Program) -> None:
         rep.fail(rid, "consume|rows-missing", f"Budget.consume: expected a rejecting, a full and a granting path; found reject={n_reject} full={n_full} grant={n_grant}", where=fi.where(), function=fi.qual)
     fr = prog.func(f"{B}.remaining")
     rep.analysed(fr.qual)
-    for p in engine(prog).paths(fr):
+    rpaths = engine(prog).paths(fr)
+    rtop = engine(prog).cfgs.get(fr)
+    ridioms = loop_idioms(rpaths, rtop, SPEC.window)
+    for bad in unverified_loops(ridioms):
+        rep.instance(rid, f"remaining|while-loop@{bad.head}")
+        rep.fail(rid, "remaining|loop-shape", f"Budget.remaining: a while loop is not the prune idiom: {bad.problem}", where=fr.where(rtop.nodes[bad.head].ast), function=fr.qual)
+    for p in rpaths:
+        if p.exit[0] == "loop" and p.exit[1] in ridioms:
+            continue
         imp = [e for e in p.events if e.kind == "call" and not e.pure]
         rep.instance(rid, "remaining", {"result": show(p.exit[1]) if p.exit[0] == "return" else str(p.exit)})
         want = ("pure", "max", (("op", "-", MR, ("pure", "len", (EV,), ())), ("const", 0)), ())
         want2 = ("pure", "max", (("const", 0), ("op", "-", MR, ("pure", "len", (EV,), ()))), ())
-        ok = p.exit[0] == "return" and p.exit[1] in (want, want2) and [e.label for e in imp] == ["lib:time.monotonic", f"{B}._prune"] and imp[1].args == [imp[0].result]
+        prs = prunes(p, SPEC, ridioms, rtop)
+        clocks = [e for e in imp if e.lib() == "time.monotonic"]
+        rest_ev = [e for e in imp if e not in clocks and e not in [x.event for x in prs]]
+        ok = p.exit[0] == "return" and p.exit[1] in (want, want2) and len(clocks) == 1 and len(prs) == 1 and not rest_ev and prs[0].now == clocks[0].result and prs[0].container == EV and p.index_of(clocks[0]) < prs[0].index
         if ok:
             rep.ok(rid)
         else:
@@ -140,13 +162,23 @@ def budget_shape(rep: Report, rid: str, prog: Program) -> None:
 
 def rest(rep: Report, prog: Program) -> None:
     rep.rule("R10.2", "Budget._prune pops from the left while _events[0] <= now - window_s, nothing else; _events has no other writer; `now` is time.monotonic()")
-    window_shape(rep, "R10.2", prog, f"{B}._prune", EV, attr(SELF, "window_s"))
     ci = prog.cls(B)
+    if not window_shape(rep, "R10.2", prog, f"{B}._prune", EV, attr(SELF, "window_s")):
+        # no prune helper: consume / remaining carry the loop themselves (verified by R10.1's loop_idioms)
+        for m in ("consume", "remaining"):
+            fm = prog.func(f"{B}.{m}")
+            top = engine(prog).cfgs.get(fm)
+            ids = loop_idioms(engine(prog).paths(fm), top, SPEC.window)
+            rep.instance("R10.2", f"{m}|inline-prune-loop")
+            if len(ids) == 1 and not unverified_loops(ids) and all(i.container == EV for i in ids.values()):
+                rep.ok("R10.2")
+            else:
+                rep.fail("R10.2", f"{m}|inline-prune-loop", f"Budget.{m}: no prune helper and no verified inline prune loop over self._events ({[i.problem for i in ids.values()]})", where=fm.where(), function=fm.qual)
     for fn in prog.funcs.values():
         for n in prog._own_nodes(fn.node):
             if isinstance(n, ast.Attribute) and n.attr == "_events" and not fn.module.name.startswith("redress.strategies"):
                 rep.instance("R10.2", f"_events-use|{fn.qual}")
-                if fn.cls is ci and fn.name in ("__init__", "_prune", "consume", "remaining"):
+                if fn.cls is ci and (fn.name in ("__init__", "_prune", "consume", "remaining") or owned_by(prog, fn, (f"{B}.consume", f"{B}.remaining", f"{B}._prune"))):
                     rep.ok("R10.2")
                 else:
                     rep.fail("R10.2", f"_events-use|{fn.qual}", f"{fn.qual} touches Budget._events", where=fn.where(n), function=fn.qual)
@@ -162,7 +194,7 @@ def rest(rep: Report, prog: Program) -> None:
                 sites.append((fn, n))
     for fn, n in sites:
         rep.instance("R10.3", f"consume-site|{fn.qual}")
-        if fn.qual == HANDLE_FAILURE and not n.args and not n.keywords:
+        if owned_by(prog, fn, HANDLE_FAILURE) and not n.args and not n.keywords:
             rep.ok("R10.3")
         else:
             rep.fail("R10.3", f"consume-site|{fn.qual}", f"{fn.qual} calls Budget.consume({ast.unparse(n)[:40]}): retries are granted (one token each) only in _handle_failure", where=fn.where(n), function=fn.qual)
